@@ -49,8 +49,15 @@ static MantisParallelECBVtable_t const mantis_parallel_ecb_vec128 = {
 int mantis_parallel_ecb_init(MantisParallelECB_t *ecb)
 {
     MantisKey_t *ctx;
-    if ((ctx = calloc(1, sizeof(MantisKey_t))) == NULL)
+    if (!ecb)
         return 0;
+    if ((ctx = calloc(1, sizeof(MantisKey_t))) == NULL) {
+        /* Leave the object inert so that it is safe to pass to the
+           cleanup function or to any other function */
+        ecb->vtable = 0;
+        ecb->ctx = 0;
+        return 0;
+    }
     ecb->vtable = 0;
     ecb->ctx = ctx;
     ecb->parallel_size = 8 * MANTIS_BLOCK_SIZE;
